@@ -25,6 +25,7 @@ package engine
 // ---- rows / fields shape (backbone of C18, C06) ----
 
 //@ spec pred rowFits(qfields storage.Fields, row *storage.Row) { row != nil && len(row.Vals) == len(qfields) }
+//@ spec pred rowCovers(qfields storage.Fields, row *storage.Row) { row != nil && len(row.Vals) >= len(qfields) }
 //@ // rows listed in allocation order (hence pairwise distinct objects)
 //@ spec pred ascRows(rows []*storage.Row) { forall i, j int :: 0 <= i && i < j && j < len(rows) ==> rows[i] < rows[j] }
 //@ spec pred rowsFit(qfields storage.Fields, rows []*storage.Row) { forall i int :: 0 <= i && i < len(rows) ==> rowFits(qfields, rows[i]) }
@@ -42,7 +43,7 @@ package engine
 //@ func evalPrimary(q interface{}, qfields storage.Fields, row *storage.Row) (interface{}, error)
 //@   props C05 C18
 //@   pure
-//@   requires storage.fieldsOK(qfields) && rowFits(qfields, row)
+//@   requires storage.fieldsOK(qfields) && rowCovers(qfields, row)
 //@   ensures[literal] typeof(q) != typ(sql.ColumnReference) ==> err == nil && result0 == q
 //@   ensures[column] typeof(q) == typ(sql.ColumnReference) && err == nil ==> exists idx int :: 0 <= idx && idx < len(row.Vals) &&
 //@              qfields[idx].Column == q.(sql.ColumnReference).ColumnName && result0 == row.Vals[idx]
@@ -57,7 +58,7 @@ package engine
 //@ func evalComparisonPredicate(q sql.ComparisonPredicate, qfields storage.Fields, row *storage.Row) (bool, error)
 //@   props C05 C18
 //@   pure
-//@   requires storage.fieldsOK(qfields) && rowFits(qfields, row)
+//@   requires storage.fieldsOK(qfields) && rowCovers(qfields, row)
 //@   ensures[eq; C05] isLit(q.LHS) && isLit(q.RHS) && q.CompOp == sql.EQ ==> err == nil && result0 == (q.LHS == q.RHS)
 //@   ensures[neq; C05] isLit(q.LHS) && isLit(q.RHS) && q.CompOp == sql.NEQ ==> err == nil && result0 == (q.LHS != q.RHS)
 //@   ensures[int; C05] typeof(q.LHS) == typ(int64) && typeof(q.RHS) == typ(int64) ==>
@@ -76,7 +77,7 @@ package engine
 //@ func evaluate(q interface{}, qfields storage.Fields, row *storage.Row) (any, error)
 //@   props C05 C18
 //@   pure
-//@   requires storage.fieldsOK(qfields) && rowFits(qfields, row)
+//@   requires storage.fieldsOK(qfields) && rowCovers(qfields, row)
 //@   ensures[literal; C05] (typeof(q) == typ(int64) || typeof(q) == typ(string) || typeof(q) == typ(bool)) ==> err == nil && result0 == q
 //@   ensures[bool; C05] err == nil && (typeof(q) == typ(sql.SearchCondition) || typeof(q) == typ(sql.BooleanTerm) || typeof(q) == typ(sql.Predicate)) ==>
 //@              typeof(result0) == typ(bool)
@@ -86,14 +87,14 @@ package engine
 //@ func evalOr(q sql.SearchCondition, qfields storage.Fields, row *storage.Row) (bool, error)
 //@   props C05 C18
 //@   pure
-//@   requires storage.fieldsOK(qfields) && rowFits(qfields, row)
+//@   requires storage.fieldsOK(qfields) && rowCovers(qfields, row)
 //@   ensures[or; C05] typeof(q.LHS) == typ(bool) && typeof(q.RHS) == typ(bool) ==> err == nil && result0 == (q.LHS.(bool) || q.RHS.(bool))
 //@   ensures[nonbool; C05] (typeof(q.LHS) == typ(int64) || typeof(q.LHS) == typ(string)) ==> err != nil
 
 //@ func evalAnd(q sql.BooleanTerm, qfields storage.Fields, row *storage.Row) (bool, error)
 //@   props C05 C18
 //@   pure
-//@   requires storage.fieldsOK(qfields) && rowFits(qfields, row)
+//@   requires storage.fieldsOK(qfields) && rowCovers(qfields, row)
 //@   ensures[nonbool; C05] (typeof(q.RHS) == typ(int64) || typeof(q.RHS) == typ(string)) ==> err != nil
 
 //@ func filterRows(q sql.WhereClause, qfields storage.Fields, rows []*storage.Row) ([]*storage.Row, error)
@@ -204,3 +205,67 @@ package engine
 //@   loop 7 invariant (tmpRows == nil || (fresh(tmpRows) && base(tmpRows) != base(lRows) && base(tmpRows) != base(rRows))) && rowsFit(tmpFields, tmpRows)
 //@   loop 7 invariant forall i int :: 0 <= i && i < len(tmpRows) ==> fresh(tmpRows[i]) && (tmpRows[i].Vals == nil || fresh(tmpRows[i].Vals))
 //@   loop 7 invariant rowsFit(lFields, lRows) && rowsFit(rFields, rRows)
+
+// ---- projection, aggregation, sorting (C05 C07 C18) ----
+
+//@ spec func vep(sl sql.SelectList, i int) any { sl[i].ValueExpressionPrimary }
+//@ spec pred avgArgsOK(sl sql.SelectList) { forall i int :: 0 <= i && i < len(sl) && typeof(vep(sl,i)) == typ(sql.Average) ==>
+//@        typeof(vep(sl,i).(sql.Average).ValueExpression) == typ(sql.ColumnReference) }
+//@ spec pred lookupOK(lookup map[sql.ColumnReference]int, n int) { forall k sql.ColumnReference :: has(lookup, k) ==> 0 <= lookup[k] && lookup[k] < n }
+//@ spec pred lookedUp(lookup map[sql.ColumnReference]int, sl sql.SelectList, i int) {
+//@        (typeof(vep(sl,i)) == typ(sql.ColumnReference) ==> has(lookup, vep(sl,i).(sql.ColumnReference))) &&
+//@        (typeof(vep(sl,i)) == typ(sql.Average) ==> has(lookup, vep(sl,i).(sql.Average).ValueExpression.(sql.ColumnReference))) &&
+//@        (typeof(vep(sl,i)) == typ(sql.Count) && typeof(vep(sl,i).(sql.Count).ValueExpression) == typ(sql.ColumnReference) ==>
+//@             has(lookup, vep(sl,i).(sql.Count).ValueExpression.(sql.ColumnReference))) }
+
+//@ func projectColumns(selectList sql.SelectList, qfields storage.Fields, rows []*storage.Row) (storage.Fields, error)
+//@   props C05 C07 C18
+//@   requires len(selectList) >= 1 && avgArgsOK(selectList) && storage.fieldsOK(qfields) && rowsFit(qfields, rows)
+//@   assume[distinct-rows] ascRows(rows)
+//@   modifies all(storage.Row.Vals), all(storage.Field.Column)
+//@   ensures[star; C05] typeof(vep(selectList,0)) == typ(sql.Asterisk) ==> err == nil && result0 == qfields && rowsFit(qfields, rows)
+//@   ensures[shape; C05 C18] typeof(vep(selectList,0)) != typ(sql.Asterisk) && err == nil ==>
+//@              len(result0) == len(selectList) && storage.fieldsOK(result0) && rowsFit(result0, rows)
+//@   loop 1 invariant lookupOK(lookup, len(qfields)) && (forall i int :: 0 <= i && i <= rangeindex ==> lookedUp(lookup, selectList, i))
+//@   loop 1 decreases len(selectList) - rangeindex
+//@   loop 2 invariant forall i int :: 0 <= i && i <= rangeindex ==> rows[i] != nil && len(rows[i].Vals) == len(selectList)
+//@   loop 2 invariant forall i int :: rangeindex < i && i < len(rows) ==> rowFits(qfields, rows[i])
+//@   loop 2 decreases len(rows) - rangeindex
+//@   loop 3 invariant (newVals == nil || fresh(newVals)) && len(newVals) == rangeindex + 1
+//@   loop 3 invariant forall i int :: 0 <= i && i < len(rows) ==> rows[i] != nil
+//@   loop 3 decreases len(selectList) - rangeindex
+//@   loop 4 invariant (headerRow == nil || fresh(headerRow)) && len(headerRow) == rangeindex + 1 && storage.fieldsOK(headerRow)
+//@   loop 4 invariant forall i int :: 0 <= i && i < len(rows) ==> rows[i] != nil && len(rows[i].Vals) == len(selectList)
+//@   loop 4 decreases len(selectList) - rangeindex
+
+//@ spec pred sortIdxsOK(sortIdxs []int, rows []*storage.Row) { forall s, k int :: 0 <= s && s < len(sortIdxs) && 0 <= k && k < len(rows) ==>
+//@        rows[k] != nil && 0 <= sortIdxs[s] && sortIdxs[s] < len(rows[k].Vals) }
+
+//@ func sortColumns$1(i int, j int) bool
+//@   props C05 C18
+//@   pure
+//@   requires 0 <= i && i < len(rows) && 0 <= j && j < len(rows) && sortIdxsOK(sortIdxs, rows) && len(sortIdxs) <= len(ssl)
+
+//@ func sortColumns(ssl []sql.SortSpecification, qfields storage.Fields, rows []*storage.Row) error
+//@   props C05 C18
+//@   requires storage.fieldsOK(qfields) && rowsFit(qfields, rows)
+//@   modifies elems(rows)
+//@   ensures[fit; C18] rowsFit(qfields, rows)
+//@   loop 1 invariant (sortIdxs == nil || fresh(sortIdxs)) && len(sortIdxs) == rangeindex + 1 &&
+//@              (forall s int :: 0 <= s && s < len(sortIdxs) ==> 0 <= sortIdxs[s] && sortIdxs[s] < len(qfields))
+//@   loop 1 decreases len(ssl) - rangeindex
+
+//@ spec pred aggTyped(sl sql.SelectList, rows []*storage.Row) { forall i, c int :: 0 <= i && i < len(rows) && 0 <= c && c < len(sl) &&
+//@        (typeof(vep(sl,c)) == typ(sql.Count) || typeof(vep(sl,c)) == typ(sql.Average)) ==> typeof(rows[i].Vals[c]) == typ(int64) }
+//@ spec pred rowsWide(n int, rows []*storage.Row) { forall i int :: 0 <= i && i < len(rows) ==> rows[i] != nil && len(rows[i].Vals) == n }
+
+//@ func emptyAggregateRow(selectList sql.SelectList, rows []*storage.Row) ([]*storage.Row, error)
+//@   props C07 C18
+//@   modifies nothing
+//@   ensures[one; C07] err == nil ==> len(result0) == 1 && result0[0] != nil && len(result0[0].Vals) == len(selectList) && fresh(result0[0])
+//@   ensures[zeros; C07] err == nil ==> forall c int :: 0 <= c && c < len(selectList) &&
+//@              (typeof(vep(selectList,c)) == typ(sql.Count) || typeof(vep(selectList,c)) == typ(sql.Average)) ==> result0[0].Vals[c] == int64(0)
+//@   loop 1 invariant row != nil && fresh(row) && len(row.Vals) == rangeindex + 1 && (row.Vals == nil || fresh(row.Vals))
+//@   loop 1 invariant forall c int :: 0 <= c && c <= rangeindex &&
+//@              (typeof(vep(selectList,c)) == typ(sql.Count) || typeof(vep(selectList,c)) == typ(sql.Average)) ==> row.Vals[c] == int64(0)
+//@   loop 1 decreases len(selectList) - rangeindex
